@@ -110,10 +110,17 @@ fn big_pts(rng: &mut Rng, n: usize) -> Vec<Coord<f64>> {
 
 fn gen_pts(rng: &mut Rng) -> (Vec<Coord<f64>>, bool) {
     let k = *rng.pick(&[3i64, 4, 5, 6, 6, 8]);
-    let n = rng.below(15) as usize;
+    let n = if rng.chance(1, 12) { rng.below(4) as usize } else { 4 + rng.below(13) as usize };
     match rng.below(20) {
         0 => { let m = rng.below(4) as usize; (grid_coords(rng, k, m), false) } // fewer than four points
-        1 | 2 => (collinear_pts(rng, k, n), false),
+        1 => (collinear_pts(rng, k, n), false),
+        2 => {
+            // collinear but for one point
+            let mut v = collinear_pts(rng, k, n);
+            let at = rng.below(v.len() as u64 + 1) as usize;
+            v.insert(at, grid_coord(rng, k));
+            (v, false)
+        }
         3 | 4 | 5 | 6 => (boundary_heavy(rng, k, n), false),
         7 | 8 => (big_pts(rng, n.min(8)), true),
         9 => {
